@@ -48,12 +48,27 @@ func (k Keeper) RandomIndex(seed *big.Int, total, count int) []int {
 			}
 		}
 		if duplicate {
-			continue
+			if seed.Sign() != 0 {
+				continue
+			}
+			// the seed is exhausted: every further draw would be 0 again, so take
+			// the smallest index not chosen yet (one exists because total > count)
+			for rs = 0; containsInt(idx, rs); rs++ {
+			}
 		}
 		idx = append(idx, rs)
 		count -= 1
 	}
 	return idx
+}
+
+func containsInt(list []int, v int) bool {
+	for _, x := range list {
+		if x == v {
+			return true
+		}
+	}
+	return false
 }
 
 func (k Keeper) RandomSP(ctx sdk.Context, count int, ignore []string, size int64) []types.Node {
